@@ -381,6 +381,15 @@ func judgeImage(run *vrun.Run, c *faultCtx, variant string, pos, val int, image 
 			run.Violation("C16/reader/alloc-budget", fmt.Sprintf("%s: reading allocated %d bytes, budget %d", at, d, allocBudget(len(image))), wit())
 			return
 		}
+		for k := 0; k < 2 && t1-t0 > cpuBudget; k++ {
+			// re-measure: the verdict is the minimum of three readings (see DESIGN §10, CPU meters)
+			run.Cover("b:cpu-remeasured")
+			u0 := vrun.ThreadCPU()
+			vrun.Catch(func() { fs.VerifDeserialize(bytes.NewReader(image)) })
+			if u := vrun.ThreadCPU() - u0; u < t1-t0 {
+				t1 = t0 + u
+			}
+		}
 		if t1-t0 > cpuBudget {
 			run.Violation("C16/reader/cpu-budget", fmt.Sprintf("%s: reading took %.2fs CPU, budget %.1fs", at, t1-t0, cpuBudget), wit())
 			return
